@@ -147,26 +147,46 @@ func (im *impl) readTable(rev, name string) (*table, error) {
 		}
 		t.Cols = append(t.Cols, col{m[1], ty})
 	}
-	if len(t.Cols) == 0 || t.Cols[0].Name != "pk" {
+	// the key column `pk` may be declared at any position
+	pkAt := -1
+	for i, c := range t.Cols {
+		if c.Name == "pk" {
+			pkAt = i
+		}
+	}
+	if pkAt < 0 {
 		return nil, fmt.Errorf("table %s@%s: unexpected schema %q", name, rev, t.Create)
 	}
-	t.Cols = t.Cols[1:]
+	t.Cols = append(append([]col{}, t.Cols[:pkAt]...), t.Cols[pkAt+1:]...)
 	r := im.q(fmt.Sprintf("select * from `%s` as of '%s' order by pk", name, rev))
 	if r.Err != nil {
 		return nil, r.Err
 	}
 	for _, rr := range r.Rows {
-		pk, err := strconv.ParseInt(rr[0], 10, 64)
+		pks, cells := splitRow(r.Cols, rr)
+		pk, err := strconv.ParseInt(pks, 10, 64)
 		if err != nil {
-			return nil, fmt.Errorf("pk %q", rr[0])
-		}
-		cells := make([]string, len(rr)-1)
-		for i, v := range rr[1:] {
-			cells[i] = wireCell(v)
+			return nil, fmt.Errorf("pk %q", pks)
 		}
 		t.Rows = append(t.Rows, row{pk, cells})
 	}
 	return t, nil
+}
+
+// splitRow separates the key column `pk` (wherever it is declared) from the other data cells and
+// drops the commit meta columns of the history table.
+func splitRow(cols []string, rr []string) (pk string, cells []string) {
+	cells = []string{}
+	for i, c := range cols {
+		switch c {
+		case "pk":
+			pk = rr[i]
+		case "commit_hash", "committer", "commit_date":
+		default:
+			cells = append(cells, wireCell(rr[i]))
+		}
+	}
+	return
 }
 
 func (im *impl) tableNames(rev string) ([]string, error) {
@@ -459,9 +479,17 @@ func (im *impl) run(line string) outcome {
 	ref := func(s string) string { r, _ := im.refSQL(s); return r }
 	switch w[0] {
 	case "ins":
+		// explicit column list (the key column need not be first): pk, then the data columns in order
 		vals := []string{w[2]}
 		for _, c := range w[3:] {
 			vals = append(vals, sqlCell(c))
+		}
+		names := []string{"`pk`"}
+		if t, err := im.readTable("WORKING", w[1]); err == nil && len(t.Cols) == len(w)-3 {
+			for _, c := range t.Cols {
+				names = append(names, "`"+c.Name+"`")
+			}
+			return oc(im.q(fmt.Sprintf("insert into `%s` (%s) values (%s)", w[1], strings.Join(names, ","), strings.Join(vals, ","))))
 		}
 		return oc(im.q(fmt.Sprintf("insert into `%s` values (%s)", w[1], strings.Join(vals, ","))))
 	case "upd":
@@ -469,11 +497,21 @@ func (im *impl) run(line string) outcome {
 	case "del":
 		return oc(im.q(fmt.Sprintf("delete from `%s` where pk=%s", w[1], w[2])))
 	case "create":
-		defs := []string{"pk int primary key"}
+		// `pk@N`: the key column is declared at position N (the model abstracts the position away)
+		at := 0
+		var defs []string
 		for _, c := range w[2:] {
+			if strings.HasPrefix(c, "pk@") {
+				at, _ = strconv.Atoi(c[3:])
+				continue
+			}
 			p := strings.SplitN(c, ":", 2)
 			defs = append(defs, fmt.Sprintf("`%s` %s", p[0], sqlTy(p[1])))
 		}
+		if at > len(defs) {
+			at = len(defs)
+		}
+		defs = append(defs[:at], append([]string{"pk int primary key"}, defs[at:]...)...)
 		return oc(im.q(fmt.Sprintf("create table `%s` (%s)", w[1], strings.Join(defs, ", "))))
 	case "droptable":
 		return oc(im.q(fmt.Sprintf("drop table `%s`", w[1])))
